@@ -158,6 +158,38 @@ type MessageFine struct {
 
 func (*MessageFine) GetID() uint32 { return 60100 }
 
+// enums of other integer kinds than uint64, with every wire type (signed ones included)
+type (
+	vfI64 int64
+	vfI32 int32
+	vfU32 uint32
+)
+
+type MessageBadEnumInt64Kind struct {
+	A vfI64 `mavenum:"int32"`
+}
+
+func (*MessageBadEnumInt64Kind) GetID() uint32 { return 60017 }
+
+type MessageBadEnumInt64KindInt8 struct {
+	A uint8
+	B [2]vfI64 `mavenum:"int8"`
+}
+
+func (*MessageBadEnumInt64KindInt8) GetID() uint32 { return 60018 }
+
+type MessageBadEnumInt32Kind struct {
+	A vfI32 `mavenum:"int32"`
+}
+
+func (*MessageBadEnumInt32Kind) GetID() uint32 { return 60019 }
+
+type MessageBadEnumUint32Kind struct {
+	A vfU32 `mavenum:"uint32"`
+}
+
+func (*MessageBadEnumUint32Kind) GetID() uint32 { return 60020 }
+
 type MessageFineDup struct{ Z uint8 }
 
 func (*MessageFineDup) GetID() uint32 { return 60100 }
@@ -170,6 +202,8 @@ func malformed() map[string]message.Message {
 		"field-named-enum-untagged": &MessageBadNamedEnum{}, "field-named-uint8": &MessageBadNamedU8{}, "field-named-string": &MessageBadNamedString{},
 		"field-named-float-array": &MessageBadNamedFloat{}, "field-pointer": &MessageBadPointer{}, "field-nested-struct": &MessageBadNested{},
 		"enum-array-of-non-uint64": &MessageBadEnumArrayElem{},
+		"enum-int64-kind-on-int32": &MessageBadEnumInt64Kind{}, "enum-int64-kind-array-on-int8": &MessageBadEnumInt64KindInt8{},
+		"enum-int32-kind-on-int32": &MessageBadEnumInt32Kind{}, "enum-uint32-kind-on-uint32": &MessageBadEnumUint32Kind{},
 	}
 }
 
